@@ -113,6 +113,9 @@ Fold(cs, j, x) == IF j > Len(cs) THEN x ELSE Fold(cs, j + 1, FnOf(cs[j][2]).a * 
 Payoff(x)  == Fold(clauses, 1, x)                       \* payoff() for a payoff_fn() value x
 Ul(i)      == IF i >= 0 /\ i < Len(unders) THEN unders[i + 1][2]
               ELSE IF i < 0 /\ -i <= Len(unders) THEN unders[Len(unders) + i + 1][2] ELSE "IndexError"
+\* derivative.<name> for the name of an underlier: the instrument registered under that name NOW - whether it got there by
+\* register_underlier or by attribute assignment, and whatever was assigned to the attribute earlier
+Attr(n)    == IF n \in NamesOf(unders) THEN unders[IndexOf(unders, n)][2] ELSE "AttributeError"
 Spot       == IF listed THEN pricer ELSE -1               \* -1: ValueError("self is not listed.")
 DtypeOK    == Len(unders) = 1                             \* dtype / device are defined for exactly one underlier
 
@@ -138,11 +141,20 @@ Separate == [][(hist' # hist) =>
 ListingConsistent == (~listed => pricer = 0 /\ cost = 0) /\ (listed => pricer > 0)
 \* a clause name never becomes an attribute: the same name can later be used for an underlier, and then the clause name is
 \* taken (for NEW clauses) - but a clause registered BEFORE stays replaceable
+\* attribute assignment of a primary IS registration: same verdict, same registry afterwards; and the attribute always reads the
+\* registry (the first underlier is derivative.underlier = ul(0))
+SetAttrIsRegister == [][(hist' # hist /\ Last.op = "SetAttr") =>
+                          LET v == Verdict(Last.name, unders) IN
+                            /\ Last.res = v
+                            /\ unders' = IF v = "ok" THEN Put(unders, Last.name, Last.arg) ELSE unders]_vars
+AttributeReadsRegistry == /\ Attr("underlier") = Ul(0)
+                          /\ \A k \in 1..Len(unders) : Attr(unders[k][1]) = unders[k][2]
 ClauseNamesStayUsable == \A k \in 1..Len(clauses) : Verdict(clauses[k][1], clauses) = "ok"
 
 \* emission: complete histories with what every read-only operation returns in the final state
 Emit == (Len(hist) = MaxDepth) =>
           PrintT(ToJson([hist |-> hist,
                          reads |-> [payoff3 |-> Payoff(3), payoff5 |-> Payoff(5), ul0 |-> Ul(0), ul1 |-> Ul(1), ulm1 |-> Ul(-1), ul5 |-> Ul(5),
+                                    attrs |-> [k \in 1..Len(unders) |-> <<unders[k][1], Attr(unders[k][1])>>],
                                     spot |-> Spot, dtype_ok |-> DtypeOK, listed |-> listed, cost |-> cost]]))
 =============================================================================
